@@ -708,6 +708,9 @@ def paired_calc_gamma(ctx, mod):
     # first args: deltas of the replica / ones of the same shape
     d0, d1 = a.args[0], b.args[0]
     k_idl = a.args[1]
+    if not isinstance(k_idl, ast.Subscript):
+        ctx.unrec(rule, key + '-inputs', 'configuration list argument %s is not self.idl[<replica>]' % unparse(k_idl), mod.loc(a))
+        return
     okd = isinstance(d0, ast.Subscript) and unparse(d0.value) == 'self.deltas' and unparse(d0.slice) == unparse(k_idl.slice)
     oko = isinstance(d1, ast.Call) and (mod.dotted(d1.func) or '') == 'numpy.ones' and unparse(a.args[2]) in unparse(d1.args[0])
     ctx.check(rule, key + '-inputs', okd and oko, 'data = deltas of the replica, counter = ones of the replica\'s shape',
